@@ -31,3 +31,22 @@ def render_lines(case):
             lines.append((b.text, y))
         res.append(lines)
     return res
+
+
+def render_lines_blank(case):
+    """render_lines + which pages are blank pages (the root box has no child: made for a page-side break)"""
+    from tests.testing_utils import render_pages
+    pages = render_pages(case['html'])
+    res, blank = [], []
+    for p in pages:
+        tb = []
+        walk_text(p, tb)
+        lines = []
+        for b in tb:
+            y = b.position_y
+            y = float(y) if y != int(y) else int(y)
+            lines.append((b.text, y))
+        res.append(lines)
+        root, = p.children
+        blank.append(not root.children)
+    return {'lines': res, 'blank': blank}
